@@ -57,6 +57,17 @@ def gen_cases(tier, seed):
         cases.append({"shells": shells, "points": pts, "orders": orders, "transform": T,
                       "classes": classes + pcls + [tcls, "lmax:%d" % max(ls)] + ["o:%d%d%d" % tuple(o) for o in orders],
                       "cost": len(pts) * sum((1 + l) * len(s["e"]) for s, l in zip(shells, ls))})
+    # many points (any chunking over points must be invisible)
+    for i in range(2 if tier == "quick" else 12):
+        rng = bases.rng_for("C05", seed, tier, "manypts", i)
+        ls = [int(x) for x in rng.integers(0, 4, size=2)]
+        shells, classes = bases.rand_basis(rng, ls, scale=1.0, emax_fn=lambda l: 30.0)
+        npts = int(rng.choice([1025, 2500, 4099]))
+        pts = (np.array(shells[0]["c"]) + rng.normal(size=(npts, 3)) * 1.5).tolist()
+        pts[7] = list(shells[0]["c"])
+        orders = [[int(x) for x in rng.integers(0, 3, size=3)], [int(x) for x in rng.integers(0, 5, size=3)], [1, 0, 2]]
+        cases.append({"shells": shells, "points": pts, "orders": orders, "transform": None,
+                      "classes": classes + ["pt:many(%d)" % npts, "pt:center", "T:none", "lmax:%d" % max(ls)] + ["o:%d%d%d" % tuple(o) for o in orders], "cost": npts * 4})
     return cases
 
 
